@@ -521,8 +521,11 @@ def noCollClassCols : Cols → Bool
   | .global _ _ cs => cs.all (fun c => noCollClass c.2)
   | .perCol cs => cs.all (fun c => noCollClass c.typ)
 
-def wfMeta (m : Meta) : Bool :=
-  (match m.paging with | some p => fitsInt p | none => true) && wfCols m.cols
+def optFitsInt : Option Bytes → Bool
+  | none => true
+  | some b => fitsInt b
+
+def wfMeta (m : Meta) : Bool := optFitsInt m.paging && wfCols m.cols
 
 def wfSchemaChange (v : Nat) : SchemaChange → Bool
   | .keyspace ch ks => fitsShort ch && fitsShort ks
@@ -564,10 +567,6 @@ def wfEvent (v : Nat) : Event → Bool
   | .topology ch a p => fitsShort ch && isAddr a && isInt32 p
   | .status ch a p => fitsShort ch && isAddr a && isInt32 p
   | .schema sc => wfSchemaChange v sc
-
-def optFitsInt : Option Bytes → Bool
-  | none => true
-  | some b => fitsInt b
 
 def wfBody (v : Nat) : Body → Bool
   | .error msg e => fitsShort msg && wfErr v e
